@@ -1,5 +1,17 @@
 """C13 — MPMC FIFO (include/mpmc_fifo.h) with hazard-pointer reclamation and node reuse."""
+import os
+import sys
+
 from specs import sched_env, n_cases
+
+sys.path.insert(0, os.path.join(os.path.dirname(os.path.dirname(os.path.abspath(__file__))), "extract"))
+import mpmc_extract  # noqa: E402
+
+
+def pre(repo):
+    """translator step (facts no trace shows): push/trypop retry without bound; EMPTY only where head->prev was NULL"""
+    return mpmc_extract.check(repo)
+
 
 # ------------------------------------------------------------------ C13 mpmc fifo
 
@@ -97,6 +109,7 @@ def _hp_scale_part():
 
 SPEC = {
     "C13": {
+        "pre": pre,
         "extra_props": ("QueueHist",),
         "parts": [{"name": "mpmc", "harness": "mpmc", "model": "Mpmc", "gen": gen_mpmc, "post": post_mpmc},
                   # the composition assumption (C14: nothing protected is reclaimed) at scales and
